@@ -1,6 +1,6 @@
 (* Union/PropsX.v — C07, extension: key flags, Len, write sequence number, snapshot reads of the buffer.
    Only statements; proofs in ProofsX.v. *)
-From Verif Require Import Base.Lex Union.Model Union.ModelX Union.ProofsMap Union.ProofsBuf Union.ProofsX.
+From Verif Require Import Base.Lex Union.Model Union.ModelX Union.ProofsMap Union.ProofsBuf Union.ProofsX Union.ProofsSize.
 
 Notation sorted := (dsorted false).
 
@@ -88,6 +88,18 @@ Proof.
 Qed.
 Print Assumptions C07_len.
 
+(* Size: after ANY operation sequence from the empty buffer (writes with flag ops, deletes, flag updates, limits
+   and rejected writes, nested staging levels, Release, Cleanup, Checkpoint, RevertToCheckpoint, in-place
+   overwrites) the Size counter, updated incrementally as art.go does, equals
+       sum over the existing keys k of  len(k) + len(current value of k)
+   where the existing keys are those of C07_len (value, tombstone, or flags only); a tombstone and a flags-only
+   key count with their key length only; overwritten versions that are still in the value log do NOT count. *)
+Theorem C07_size : forall ops,
+  let st := xrun ops xbuf_empty in
+  x_size st = sum_over (x_kf st) (fun k => len_n k + match buf_get (x_b st) k with Some v => len_n v | None => 0 end).
+Proof. exact size_spec. Qed.
+Print Assumptions C07_size.
+
 (* Iterator invalidation: the write sequence number never decreases, and whenever it did not move neither the
    value log nor the flag table changed — an iterator that is still accepted iterates unchanged content. *)
 Theorem C07_write_seq : forall st o,
@@ -137,6 +149,13 @@ Example snapshot_example :
   x_history st [97] = [[2]; [1]] /\
   x_inspect_stage st 1 = [([99], 0, [3]); ([98], 0, []); ([97], 0, [2])] /\
   x_inspect_stage st 2 = [([99], 0, [3])].
+Proof. vm_compute. repeat split; reflexivity. Qed.
+
+Example size_example :
+  let st := xrun [XWrite [97; 97] [1; 2; 3] []; XWrite [97; 97] [4; 5; 6] []; XWrite [97; 97] [7] []; XDelete [98] [];
+                  XFlags [99; 99; 99] [2%nat]; XStaging; XWrite [100] [1; 1] []; XCleanup 1] xbuf_empty in
+  length (b_log (x_b st)) = 3%nat /\      (* 123 overwritten in place by 456, then 7 and the tombstone appended *)
+  x_len st = 3 /\ x_size st = (2 + 1) + (1 + 0) + (3 + 0).
 Proof. vm_compute. repeat split; reflexivity. Qed.
 
 Example limits_example :
